@@ -148,10 +148,40 @@ class Ctx:
             time.sleep(2)
         # a driver call that does not come back is an infrastructure failure (exit 2), never a
         # violation claim
-        p = subprocess.run([DRIVER], input='\n'.join(lines) + '\n',
-                           capture_output=True, text=True,
-                           timeout=int(os.environ.get('VERIF_DRIVER_TIMEOUT',
-                                                      '7200' if self.tier == 'thorough' else '1500')))
+        tmo = int(os.environ.get('VERIF_DRIVER_TIMEOUT', '7200' if self.tier == 'thorough' else '1500'))
+        max_rss_kb = int(float(os.environ.get('VERIF_DRIVER_MAXRSS_GB', '14')) * 1024 * 1024)
+        proc = subprocess.Popen([DRIVER], stdin=subprocess.PIPE, stdout=subprocess.PIPE,
+                                stderr=subprocess.PIPE, text=True)
+        blown = []
+
+        def watchdog():
+            # a definitional evaluation that needs more memory than the machine can give is an
+            # infrastructure failure (exit 2), not a verdict
+            while proc.poll() is None:
+                try:
+                    with open(f'/proc/{proc.pid}/status') as fh:
+                        for ln in fh:
+                            if ln.startswith('VmRSS:'):
+                                if int(ln.split()[1]) > max_rss_kb:
+                                    blown.append(int(ln.split()[1]))
+                                    proc.kill()
+                                break
+                except OSError:
+                    return
+                time.sleep(1)
+        import threading
+        th = threading.Thread(target=watchdog, daemon=True)
+        th.start()
+        try:
+            so, se = proc.communicate('\n'.join(lines) + '\n', timeout=tmo)
+        except subprocess.TimeoutExpired:
+            proc.kill()
+            proc.communicate()
+            raise
+        if blown:
+            raise MemoryError(f'native driver exceeded {max_rss_kb // (1024 * 1024)} GB resident memory '
+                              f'on a batch of {len(lines)} lines')
+        p = subprocess.CompletedProcess([DRIVER], proc.returncode, so, se)
         out = p.stdout.split('\n')
         if out and out[-1] == '':
             out.pop()
